@@ -501,7 +501,7 @@ async fn w_split(s: &mut BoxStream, b: Vec<u8>, base: usize, split: &[usize]) ->
 /// `early`: payload bytes that go out in the same write as the last handshake message, before any reply to it
 /// has been read; `joined` (SOCKS5): greeting and request in one write as well; `split`: the offsets at which
 /// the handshake is cut into pieces that are written one by one (`TcpScn::split`).
-async fn handshake(entry: Entry, s: &mut BoxStream, ip4: [u8; 4], port: u16, early: &[u8], joined: bool, split: &[usize]) -> Result<String, String> {
+pub async fn handshake(entry: Entry, s: &mut BoxStream, ip4: [u8; 4], port: u16, early: &[u8], joined: bool, split: &[usize]) -> Result<String, String> {
     let mut msgs = handshake_msgs(entry, ip4, port);
     if joined && msgs.len() > 1 {
         msgs = vec![msgs.concat()];
